@@ -492,7 +492,7 @@ func ParamV(name string) VM {
 	return func(v ssa.Value) bool {
 		v = strip(v)
 		p, ok := v.(*ssa.Parameter)
-		return ok && p.Name() == name
+		return ok && paramName(p) == name
 	}
 }
 
